@@ -1022,6 +1022,31 @@ func (l *loopInfo) classLexer(c *Ctx, cfg *loopCfg) (string, bool) {
 			}
 		}
 	}
+	// the same loop written out where it is needed: for l.accept(isX) {...} with a named predicate
+	// that rejects eof
+	if cfg.accept != nil {
+		for _, iff := range l.exits() {
+			call, ok := iff.Cond.(*ssa.Call)
+			if !ok || call.Call.StaticCallee() != cfg.accept || len(call.Call.Args) != 2 || !l.body[iff.Block().Succs[0]] || l.body[iff.Block().Succs[1]] {
+				continue
+			}
+			var pf *ssa.Function
+			switch x := call.Call.Args[1].(type) {
+			case *ssa.Function:
+				pf = x
+			case *ssa.MakeClosure:
+				if len(x.Bindings) == 0 {
+					pf, _ = x.Fn.(*ssa.Function)
+				}
+			}
+			if pf == nil {
+				continue
+			}
+			if res, ok := evalPredicateOnConst(pf, -1, nil); ok && !res {
+				return "lexer loop: runs while accept(" + pf.Name() + ") succeeds; accept consumes one rune per success and " + pf.Name() + " rejects eof", true
+			}
+		}
+	}
 	return "", false
 }
 
